@@ -32,10 +32,43 @@ func VerifC03ObjHunk() {
 	if has {
 		cur = vSmallVal()
 	}
-	where := vChoice(4)
+	where := vChoice(7)
 	var doc JsonNode
 	var path Path
 	switch where {
+	case 4: // the parent member may be missing as well
+		o := jsonObject{"z": vNum()}
+		if vChoice(2) == 1 {
+			inner := jsonObject{}
+			if has {
+				inner["k"] = cur
+			}
+			o["p"] = inner
+		}
+		doc, path = o, Path{PathKey("p"), PathKey("k")}
+	case 5: // missing parent below an array position
+		o := jsonObject{}
+		if vChoice(2) == 1 {
+			inner := jsonObject{}
+			if has {
+				inner["k"] = cur
+			}
+			o["p"] = inner
+		}
+		doc, path = jsonArray{vNum(), o}, Path{PathIndex(1), PathKey("p"), PathKey("k")}
+	case 6: // up to two missing ancestors
+		o := jsonObject{"z": vNum()}
+		switch vChoice(3) {
+		case 1:
+			o["p"] = jsonObject{}
+		case 2:
+			inner := jsonObject{}
+			if has {
+				inner["k"] = cur
+			}
+			o["p"] = jsonObject{"q": inner}
+		}
+		doc, path = o, Path{PathKey("p"), PathKey("q"), PathKey("k")}
 	case 0: // the root itself
 		doc, path = cur, Path{}
 	case 1:
@@ -76,7 +109,7 @@ func VerifC03ObjHunk() {
 	if err == nil {
 		vAssert(refEq(p, want, modeList, 0), "strict member/root hunk applied with a result other than the reference result")
 	}
-	vCover("c03.objhunk." + [...]string{"root", "key", "nested", "key-in-array"}[where])
+	vCover("c03.objhunk." + [...]string{"root", "key", "nested", "key-in-array", "parent-missing", "parent-missing-in-array", "ancestors-missing"}[where])
 }
 
 // VerifC03SubObj: sub-sequences of the hunks of an object diff (members: absent / number /
